@@ -199,12 +199,13 @@ def run : List Frame → List Tok → Outcome (List Frame)
   | s, [] => .ok s
   | s, t :: ts => (step s t (match ts with | n :: _ => isOperandTok n | [] => false)).bind fun s' => run s' ts
 
-/-- the end of `canonicalize_mrows_in_mrow` (a row of at least two children is never lifted away) -/
+/-- the end of `canonicalize_mrows_in_mrow` (a row of at least two children is never lifted away).
+Rows that a misjudged fence left below the top one are kept: their children go in front (the `while let Some(below)` loop). -/
 def finish (s : List Frame) : Outcome T :=
   (reduce fencepost.prio s.length s).bind fun s1 =>
   match s1 with
-  | [f] => .ok f.close
-  | _ => .panic "canonicalize.rs:canonicalize_mrows_in_mrow:assert_eq(parse_stack.len(), 0)"
+  | f :: rest => .ok (Frame.close { f with rkids := f.rkids ++ rest.flatMap (·.rkids) })
+  | [] => .panic "canonicalize.rs:canonicalize_mrows_in_mrow:pop.unwrap"
 
 def parseRow (toks : List Tok) : Outcome T := (run [Frame.new] toks).bind finish
 
